@@ -84,6 +84,10 @@ RULE = ("target ADMGs with 2-5 nodes x 1-2 domains (selection diagram = the targ
         "a wrong edge or a missing vertex, ...). A case is non-trivial when validation passes, the graph "
         "has >=3 nodes and some event variable has a subscript.")
 ASSUMPTIONS = [
+    "a PP[pi*] leaf of the answer is read on P*(V; sigma_Z) - the target model with the mechanisms of the declared policy "
+    "variables replaced (pseudo-population TPOL of the oracle) - when EVERY target-tagged entry of the domain list declares the "
+    "same non-empty policy; when plain target data are listed too the tag cannot tell them apart and the leaf is read as P*, "
+    "which can hide a wrong choice of domain but never accuse a right one (stream target_policy, seeded/C09e)",
     "value clause, Algorithm 2: PROVED (Props/C09Sound ctfTRu_sound_partial; no hypothesis about any part of the algorithm) "
     "for validated inputs built by the public wrapper without a self-intervened variable whose simplified event has no "
     "valueless item and is in the decidable class CtfTr.ctfSoundClass (readable, not multi-world / literal-bound / "
@@ -630,6 +634,54 @@ def _fallthrough_case(rng):
     return _u(g, doms, ev, rng.randrange(1 << 30), topo_seed=rng.randrange(1 << 30), stream="fallthrough")
 
 
+def _target_policy_case(rng):
+    """a TARGET-tagged entry WITH a non-empty, uncut policy set (P*(V; sigma_Z)) whose policy variable z is a root without
+    bidirected edges - so the validator accepts the entry - and forms a district {z} that the query needs; a source domain
+    without a mark on z can deliver Q[{z}], the target-tagged entry must NOT (its policy acts inside the district).  Both
+    list orders (seeded/C09e needs the target-tagged entry FIRST), optional third domain, optional extra vertices, one case
+    in three conditional.  The value oracle judges: Q[{z}] taken from the policy-altered distribution is wrong."""
+    n = rng.choice([3, 3, 4, 4, 5])
+    lab = rng.sample(range(5), n)
+    z, x, y = lab[0], lab[1], lab[2]
+    di = [[z, x], [x, y]]
+    if rng.random() < 0.7:
+        di.append([z, y])
+    bi = [[x, y]] if rng.random() < 0.25 else []
+    for w in lab[3:]:
+        r = rng.random()
+        if r < 0.3:
+            di.append([w, y])
+        elif r < 0.55:
+            di.append([x, w])
+        elif r < 0.8:
+            di += [[z, w], [w, y]]
+        else:
+            di.append([w, x])
+            if rng.random() < 0.5:
+                bi.append([w, y])
+    g = {"nodes": [], "di": di, "bi": bi}
+    if [z, y] in di and rng.random() < 0.6:
+        ev = [cv(y, rng.choice("mp"), [(x, rng.choice("mmp"))])]
+    else:
+        ev = [cv(y, rng.choice("mp")), cv(x, rng.choice("mp"))]
+        if rng.random() < 0.5:
+            ev.append(cv(z, rng.choice("mp")))
+    others = [v for v in lab if v != z]
+    src = {"pop": TARGET + 1, "tmarks": sorted(v for v in others if rng.random() < 0.25), "policy": [], "cut": []}
+    doms = [{"pop": TARGET, "tmarks": [], "policy": [z], "cut": []}, src]
+    if rng.random() < 0.4:
+        doms.append({"pop": TARGET + 2, "tmarks": sorted({z} | {v for v in others if rng.random() < 0.3}), "policy": [], "cut": []})
+    if rng.random() < 0.5:
+        rng.shuffle(doms)
+    if rng.random() < 0.5:
+        _tag_domains(rng, [d for d in doms if d["pop"] != TARGET])
+    seed = rng.randrange(1 << 30)
+    if len(ev) >= 2 and rng.random() < 0.35:
+        return _split_cond(rng, ev, {"g": g, "domains": doms, "seed": seed, "topo_seed": rng.randrange(1 << 30),
+                                     "stream": "target_policy"})
+    return _u(g, doms, ev, seed, topo_seed=rng.randrange(1 << 30), stream="target_policy")
+
+
 def _cond_structured_case(rng):
     """conditional queries that the value oracle judges: a single-world event of 2-4 items over distinct variables of a
     4-5 node graph (the two_domain construction), split into outcomes and conditions - with >= 3 conditions or >= 3
@@ -752,6 +804,8 @@ def cases(rng: random.Random, tier: str):
         out.append(_cond_structured_case(rng))
     for _ in range(n_sw // 15):
         out.append(_with_forms(rng, rng.choice([_single_world_case, _two_domain_case, _rand_case])(rng)))
+    for _ in range(n_sw // 10):
+        out.append(_target_policy_case(rng))
     if tier not in ("quick", "escalated"):
         for _ in range(600):
             out.append(_six_node_case(rng))
@@ -920,18 +974,54 @@ def _visible(fam, seed):
     return fam
 
 
+TPOL = TARGET - 1   # pseudo-population of the oracle: the TARGET domain under its declared policy, P*(V; sigma_Z)
+
+
+def _target_policy(doms):
+    """(policy variables, cut variables) when every target-tagged entry of the domain list declares the SAME non-empty
+    policy: the data the analyst holds under the tag pi* is then P*(V; sigma_Z), not P*(V), and a PP[pi*] term of the answer
+    must be read on it (mechanisms of the policy variables replaced, incoming edges of cut ones removed).  None when the list
+    has plain target data too (the tag alone cannot tell the two apart; PP[pi*] is then read as P*, which can only hide a
+    wrong choice, never accuse a right one) or no target-tagged entry."""
+    tds = [d for d in doms if d["pop"] == TARGET]
+    if not tds or any(not d["policy"] for d in tds):
+        return None
+    kinds = {(tuple(sorted(d["policy"])), tuple(sorted(d["cut"]))) for d in tds}
+    if len(kinds) != 1:
+        return None
+    pol, cut = next(iter(kinds))
+    return set(pol), set(cut)
+
+
+def _retag(e, tp):
+    """the answer with every PP[pi*] leaf moved to the pseudo-population TPOL (when the target data carry a policy)"""
+    if tp is None or not isinstance(e, list):
+        return e
+    if e and e[0] == "PP" and int(e[1][1]) == TARGET:
+        return ["PP", [e[1][0], str(TPOL)] + list(e[1][2:])] + [_retag(x, tp) for x in e[2:]]
+    return [_retag(x, tp) for x in e]
+
+
+def _marks_cut(doms):
+    marks = {d["pop"]: set(d["tmarks"]) | set(d["policy"]) for d in doms if d["pop"] != TARGET}
+    cut = {d["pop"]: set(d["cut"]) for d in doms if d["pop"] != TARGET}
+    tp = _target_policy(doms)
+    if tp is not None:
+        marks[TPOL], cut[TPOL] = tp
+    return marks, cut, tp
+
+
 def _value_check(case, enc_expr_, ret_event, queried, cond=None):
     """(v): exists a reading of the returned event under which the expression equals P*(queried [| cond])"""
     g = case["g"]
     nodes = sorted(G.all_nodes(g))
     doms = case["domains"]
-    marks = {d["pop"]: set(d["tmarks"]) | set(d["policy"]) for d in doms if d["pop"] != TARGET}
-    cut = {d["pop"]: set(d["cut"]) for d in doms if d["pop"] != TARGET}
+    marks, cut, tp = _marks_cut(doms)
     fam = _visible(FE.Family({"nodes": nodes, "di": g["di"], "bi": g["bi"]}, marks, random.Random(case["eval_seed"]), cut=cut,
                              den=4, tri_latents=False), case["eval_seed"])
     ft = FE.FunctionalTarget(fam)
     try:
-        arr = fam.ev(enc_expr_)
+        arr = fam.ev(_retag(enc_expr_, tp))
     except FE.EvalError as e:
         return f"expression cannot be read on the declared domain distributions: {e}"
     arr = np.broadcast_to(arr, tuple(fam.card[v] for v in nodes))
@@ -1037,8 +1127,7 @@ def _family(case):
     g = case["g"]
     nodes = sorted(G.all_nodes(g))
     doms = case["domains"]
-    marks = {d["pop"]: set(d["tmarks"]) | set(d["policy"]) for d in doms if d["pop"] != TARGET}
-    cut = {d["pop"]: set(d["cut"]) for d in doms if d["pop"] != TARGET}
+    marks, cut, _tp = _marks_cut(doms)
     return _visible(FE.Family({"nodes": nodes, "di": g["di"], "bi": g["bi"]}, marks, random.Random(case["eval_seed"]), cut=cut,
                               den=4, tri_latents=False), case["eval_seed"])
 
@@ -1047,7 +1136,7 @@ def _digest(case, enc):
     import hashlib
     try:
         fam = _family(case)
-        arr = np.broadcast_to(fam.ev(enc), tuple(fam.card[v] for v in fam.nodes))
+        arr = np.broadcast_to(fam.ev(_retag(enc, _target_policy(case["domains"]))), tuple(fam.card[v] for v in fam.nodes))
         return hashlib.sha1(" ".join(str(x) for x in arr.reshape(-1)).encode()).hexdigest()[:16]
     except FE.EvalError as e:
         return "evalerr:" + str(e)[:50]
